@@ -711,13 +711,15 @@ class Interp:
                 ent = p.stack.pop()
                 if len(ent) > 6 and ent[6] is not None and p.stack:
                     # a model asked for a sequence of calls of the same function (for_each over a scripted collection)
-                    rest, fin = ent[6]
+                    rest, fin = ent[6][0], ent[6][1]
+                    acc = (ent[6][2] if len(ent[6]) > 2 else ()) + (rv,)
                     del p.frames[fid]
-                    if rest:
+                    stop = getattr(fin, "stop_when", None)
+                    if rest and not (stop is not None and stop(rv)):
                         self._enter(p, fn, rest[0], retp[0], retp[1], rett, wrap=retwrap)
-                        p.stack[-1].append((rest[1:], fin))
+                        p.stack[-1].append((rest[1:], fin, acc))
                         continue
-                    rv = fin(self, p)
+                    rv = fin(self, p, acc) if getattr(fin, "wants_results", False) else fin(self, p)
                     if retp is not None:
                         self.write_place(p, retp[0], retp[1], rv)
                     p.stack[-1][2] = rett
@@ -1015,11 +1017,11 @@ class Interp:
                 self.finish(p, "panic", "diverge")
                 return False
             if not arglists:
-                self.write_place(p, fid, t["dst"], fin(self, p))
+                self.write_place(p, fid, t["dst"], fin(self, p, ()) if getattr(fin, "wants_results", False) else fin(self, p))
                 p.stack[-1][2] = tgt
                 return True
             self._enter(p, g, arglists[0], fid, t["dst"], tgt)
-            p.stack[-1].append((list(arglists[1:]), fin))
+            p.stack[-1].append((list(arglists[1:]), fin, ()))
             return True
         if isinstance(res, tuple) and res and res[0] == "panic":
             self.finish(p, "panic", res[1], t.get("us") or t.get("sp"))
